@@ -163,6 +163,12 @@ func (w *World) main(replay []core.Cmd) {
 	w.auto = false
 	sim.Logf("setup done size=%d", p.StartSize)
 
+	if p.CreateW > 0 {
+		cr := w.newInstance(len(w.insts), w.stores[0])
+		cr.creator = true
+		w.creator = cr
+		w.insts = append(w.insts, cr)
+	}
 	// --- generation / replay --------------------------------------------------
 	w.startLoad(in0)
 	ri := 0
@@ -325,7 +331,13 @@ func (w *World) enabled() []core.WCmd {
 		}
 	}
 	anyLog := false
+	if p.CreateW > 0 && w.creator != nil && w.creator.state != stLoading && w.creates < 3 {
+		add(p.CreateW, core.Cmd{A: "create"})
+	}
 	for _, in := range w.insts {
+		if in.creator {
+			continue
+		}
 		if p.SlowW > 0 && (in.state == stRunning || in.state == stLoading) {
 			if !in.slow {
 				add(p.SlowW, core.Cmd{A: "slow", I: in.idx})
@@ -530,6 +542,12 @@ func (w *World) exec(c core.Cmd) bool {
 		in.seqCancel()
 		w.sim.Probe("stop")
 		return true
+	case "create":
+		if w.creator == nil || w.creator.state == stLoading {
+			return false
+		}
+		w.startCreate()
+		return true
 	case "slow", "fast":
 		in := w.inst(c.I)
 		if in == nil || in.slow == (c.A == "slow") {
@@ -665,6 +683,17 @@ func (w *World) epilogue() {
 	// keep one instance; the others are shut down
 	primary := w.insts[0]
 	for _, in := range w.insts[1:] {
+		if in.creator {
+			if in.state == stLoading {
+				in.dead = true
+				for _, op := range w.sim.Parked() {
+					if op.Inst == in.idx {
+						w.sim.Forget(op)
+					}
+				}
+			}
+			continue
+		}
 		if in.state == stRunning || in.state == stLoading {
 			w.finishCrash(in, nil)
 			w.crashes--
@@ -799,3 +828,28 @@ func (w *World) unfinished(in *Instance) int {
 
 var _ = errors.Is
 var _ = ref.TileWidth
+
+// startCreate runs CreateLog against the existing log as a scheduled task: it
+// must fail and change nothing, whatever fails underneath it (C06).
+func (w *World) startCreate() {
+	in := w.creator
+	in.inc++
+	inc := in.inc
+	in.dead = false
+	in.state = stLoading
+	w.creates++
+	cfg := in.config(inc)
+	cfg.Cache = w.cachePath(90 + w.creates)
+	w.sim.Probe("create.started")
+	go func() {
+		err := ctlog.CreateLog(context.Background(), cfg)
+		if in.inc != inc || in.dead {
+			select {}
+		}
+		in.state = stDown
+		if err == nil {
+			w.orc.v("C06", "create-over-existing", "CreateLog succeeded although the log exists")
+		}
+		w.note("create %d -> %v", inc, err != nil)
+	}()
+}
